@@ -41,7 +41,23 @@
     neighbouring chains of one call, agree with frequency sum_s K(v0,s)^2; a chain continued over two 1-step calls
     follows kernel^2.
 (d) thorough tier (and the failing-input search): STATISTICAL TEST — empirical law of sample(k=1,2,
-    initial_state) over 2e5 chains vs kernel^k with a Hoeffding bound at delta = 1e-9 per cell."""
+    initial_state) over 2e5 chains vs kernel^k with a Hoeffding bound at delta = 1e-9 per cell.
+(h) the single-layer samplers sample_h_given_v / sample_v_given_h / sample_a_given_v / sample_v_given_ha called DIRECTLY
+    (no out=, fresh out=, 1-D) on the whole configuration space, for every net and after every history step: 0/1 of shape
+    (..., units), the out= tensor holds the returned sample, the returned sample is the recorded Bernoulli draw made from
+    the exact conditional (law test of repeated draws when the draw is not observable).
+(i) LONG CHAINS, fixed cases that run first: three slowly mixing nets (second kernel eigenvalue 0.975, found by bisection,
+    so that kernel^17 .. kernel^100, the stationary law and the uniform law are pairwise > 0.06 apart in some cell):
+    content tie of runs with k = 17, 31, 32, 33, 64, 100 and one k in 128..1500 (sample / gibbs_steps / sample(k, n,
+    initial_state=), strided and float32 start states, overwrite on and off); STATISTICAL TESTS of 25000 chains against
+    matrix_power(K_exact, k) for k in 17, 32, 33, 64, 100, and of sample(64, 25000) given its own start draw.
+    Bernoulli draws are recorded from torch.bernoulli, Tensor.bernoulli and Tensor.bernoulli_ (probability = its argument).
+(j) SINGLE-PRECISION NETWORKS, fixed cases: one state per type built with module=<RBM>.float(): conditionals on float32
+    inputs vs the tables of the float32-rounded parameters (2e-5), content tie of runs from float64 / float32 / int64 /
+    strided start states (the chain runs in the dtype of the weights; the caller's tensor is written back), one run with
+    k = 33, sample(k, n), law test per start state.
+(e') histories also REPLACE the amplitude network of the live state through the public `rbm_am` setter (new network with
+    another number of hidden / auxiliary units): probability, conditionals, gibbs_steps and state.sample must follow."""
 import itertools, math, time
 import numpy as np
 import gen
@@ -50,10 +66,14 @@ RULE = ("state types positive / complex / density; shapes nv,nh in 1..4, na in 1
         "nh != nv, na != nh, size-1 dims; thorough: all 16 binary shapes x 2 types and all 48 purification shapes); "
         "parameters from the mixture in harness/gen.py with every bias non-zero; all 2^nv visible, 2^nh hidden, 2^na "
         "auxiliary configurations enumerated; sampling scenarios k in 0..3 x overwrite in {False,True} x continued "
-        "calls x gibbs_steps / sample(with and without initial_state) x start-state layout (16 layouts: dense, strided / "
+        "calls x gibbs_steps / sample(with and without initial_state) x single-layer samplers called directly (no out / "
+        "out= / 1-D) x start-state layout (16 layouts: dense, strided / "
         "column-block / transposed / expanded / offset views of a larger tensor, 1-D and 3-D forms) x start dtype (10 dtypes); "
         "fixed cases first: three well-mixing nets (one per state type) through every layout, dtype and the per-layout law "
-        "tests; a case is (state type, shape, parameter draw); "
+        "tests; then three slowly mixing nets with chains of k = 17, 31, 32, 33, 64, 100 and one k in 128..1500 (content tie "
+        "+ law tests against matrix_power(kernel, k)); then three single-precision nets (module=<RBM>.float()); histories: "
+        "six kinds of update of the live object incl. replacing the network through the rbm_am setter; "
+        "a case is (state type, shape, parameter draw); "
         "non-trivial := all biases non-zero and the kernel has no row equal to another (the chain depends on its state)")
 ASSUMPTIONS = ["torch.bernoulli(p) returns independent 0/1 draws with P(1) = p per entry (trusted; the thorough tier adds a "
                "Hoeffding-bounded statistical test of the end-to-end law, labelled as a test)",
@@ -64,7 +84,21 @@ ASSUMPTIONS = ["torch.bernoulli(p) returns independent 0/1 draws with P(1) = p p
                "a tensor-level read: when every recorded torch.bernoulli call is an exact conditional and the calls form >= k "
                "complete steps chained from the caller's start state, the sampler is taken to have run its chain through these "
                "calls, so a returned tensor that is not the visible draw of step k (or of a later step) is a failing input",
-               "two start-state forms fail on the unchanged tree and are probed but only recorded (evidence extra "
+               "OUT OF SCOPE (red-team round 2, C05_1): networks handed over with module= whose parameters have "
+               "requires_grad=True -- every documented construction path (the state constructors, BinaryRBM / PurificationRBM, "
+               "load_params / autoload) yields requires_grad=False parameters; a user has to re-wrap the parameters of a live library "
+               "module to get there, so a sampler that reads `self.weights` instead of `self.weights.data` is not reported",
+               "IN SCOPE by decision (red-team round 2, C05_4): single-precision networks (an RBM module converted with the public "
+               "nn.Module.float() and handed over through the documented module= argument; no subclassing, no attribute patching). The "
+               "documentation never mentions a precision; the unchanged tree samples such networks correctly (the chain is converted "
+               "with .to(weights)), and 'all parameters ... every state type' does not exclude them. Demanded: sampling, and the "
+               "conditionals on tensors of the network's own dtype, up to float32 rounding (2e-5). NOT demanded (and failing on the "
+               "unchanged tree): conditional methods called with float64 tensors on a float32 network, DensityMatrix.rho of a float32 "
+               "network (both raise a dtype error)",
+               "the single-layer samplers are located by their documented names; a missing name is counted, not reported",
+               "replacing the amplitude network of a live state through the public property setter `state.rbm_am = <RBM>` is a "
+               "history inside the quantifier ('histories', 'chains continued across calls'); the new network has the same num_visible",
+               "two start-state forms that failed on the unchanged tree before fix 2c1500e are still probed but only recorded (evidence extra "
                "'unfiled_findings', histogram 'UNFILED-FINDING:*') until known_findings.json has an open entry with match "
                "{'pending_finding': <tag>}: 3-D start state with permuted batch axes (raises), 1-D strided view with "
                "overwrite=True (writes into neighbouring cells of the caller's storage)"]
@@ -73,6 +107,8 @@ HOEFFDING_DELTA = 1e-9
 # relative tolerance for oracle relations that compare DIFFERENT float paths (torch's softplus returns x above its
 # threshold 20, dropping log1p(e^-20) = 2.1e-9 from log-probabilities; exact sigmoids / brute-force sums do not)
 RT = 1e-7
+# single-precision networks (module.float()): float32 rounding of the pre-activation (|x| <~ 10) and of the sigmoid
+RT32 = 2e-5
 
 
 # ----------------------------------------------------------------------------- helpers
@@ -106,13 +142,31 @@ def tnp(t):
 class Net:
     """A state under test with its parameters (numpy) and brute-force reference tables."""
 
-    def __init__(self, kind, nv, nh, na, params, ph_params=None):
+    def __init__(self, kind, nv, nh, na, params, ph_params=None, f32=False):
         import torch
         from qucumber.nn_states import PositiveWaveFunction, ComplexWaveFunction, DensityMatrix
         self.kind, self.nv, self.nh, self.na = kind, nv, nh, na
         self.params = [np.asarray(p, dtype=float) for p in params]
         self.purif = (kind == "density")
-        if kind == "positive":
+        self.f32 = bool(f32)
+        self.rt = RT
+        self.wdtype = torch.double
+        if f32:
+            # SINGLE-PRECISION NETWORK, built the documented way: an RBM module handed over with `module=` after the user
+            # converted it with nn.Module.float().  The reference tables are those of the float32-rounded parameters.
+            from qucumber.rbm import BinaryRBM, PurificationRBM
+            self.params = [np.asarray(p, dtype=np.float32).astype(float) for p in self.params]
+            self.rt, self.wdtype = RT32, torch.float32
+            if self.purif:
+                module = PurificationRBM(nv, nh, na, gpu=False)
+                gen.set_prbm(module, *self.params)
+                self.state = DensityMatrix(nv, module=module.float(), gpu=False)
+            else:
+                module = BinaryRBM(nv, nh, gpu=False)
+                gen.set_brbm(module, *self.params)
+                cls = PositiveWaveFunction if kind == "positive" else ComplexWaveFunction
+                self.state = cls(nv, module=module.float(), gpu=False)
+        elif kind == "positive":
             self.state = PositiveWaveFunction(nv, nh, gpu=False)
             gen.set_brbm(self.state.rbm_am, *self.params)
         elif kind == "complex":
@@ -126,12 +180,17 @@ class Net:
             if ph_params is not None:
                 gen.set_prbm(self.state.rbm_ph, *[np.asarray(p, dtype=float) for p in ph_params])
         self.rbm = self.state.rbm_am
-        self.V, self.H = bitsarr(nv), bitsarr(nh)
-        self.A = bitsarr(na) if self.purif else np.zeros((1, 0))
+        self.nh0, self.na0 = nh, na
+        self._space()
         self.per = 3 if self.purif else 2
         self._tables()
 
-    HOWS = ("inplace add_", "data.copy_", "rebind .data", "load_state_dict", "new nn.Parameter")
+    def _space(self):
+        self.V, self.H = bitsarr(self.nv), bitsarr(self.nh)
+        self.A = bitsarr(self.na) if self.purif else np.zeros((1, 0))
+
+    SETTER = "rbm_am setter (new network)"
+    HOWS = ("inplace add_", "data.copy_", "rebind .data", "load_state_dict", "new nn.Parameter", SETTER)
 
     def pnames(self):
         return ["weights_W", "weights_U", "visible_bias", "hidden_bias", "aux_bias"] if self.purif else \
@@ -141,13 +200,35 @@ class Net:
         """Same-object history: change the parameters of the live RBM (never rebuilding the state) the way training,
         loading or a user would, then rebuild the reference tables from what the object now holds."""
         import torch
-        if explicit is None:
+        if how == self.SETTER:
+            # the amplitude network of the live (already used) state is REPLACED through the public `rbm_am` setter by a
+            # freshly built network with another number of hidden (and auxiliary) units; probability() follows at once,
+            # and so must sample() and everything reached through the state
+            from qucumber.rbm import BinaryRBM, PurificationRBM
+            if explicit is None:
+                self.nh = self.nh % 4 + 1
+                if self.purif:
+                    self.na = self.na % 3 + 1
+            else:
+                self.nh = int(np.asarray(explicit[0]).shape[0])
+                if self.purif:
+                    self.na = int(np.asarray(explicit[1]).shape[0])
+            new = PurificationRBM(self.nv, self.nh, self.na, gpu=False) if self.purif else BinaryRBM(self.nv, self.nh, gpu=False)
+            fresh = draw_params(ctx, self.kind, self.nv, self.nh, self.na) if explicit is None else \
+                [np.asarray(p, dtype=float) for p in explicit]
+            (gen.set_prbm if self.purif else gen.set_brbm)(new, *fresh)
+            self.state.rbm_am = new
+            self.rbm = self.state.rbm_am
+            self._space()
+        elif explicit is None:
             fresh = draw_params(ctx, self.kind, self.nv, self.nh, self.na)
         else:
             fresh = [np.asarray(p, dtype=float) for p in explicit]
         names = self.pnames()
         rbm = self.rbm
-        if how == "load_state_dict":
+        if how == self.SETTER:
+            pass
+        elif how == "load_state_dict":
             sd = dict(rbm.state_dict())
             for n, arr in zip(names, fresh):
                 sd[n] = torch.tensor(arr, dtype=torch.double)
@@ -175,6 +256,10 @@ class Net:
     def case(self, **extra):
         c = {"state": self.kind, "nv": self.nv, "nh": self.nh, "na": self.na if self.purif else 0,
              "params": [p.tolist() for p in self.params], "history": list(getattr(self, "history", []))}
+        if self.f32:
+            c["network_dtype"] = "float32 (module=<RBM>.float())"
+        if self.SETTER in c["history"]:
+            c["shape_before_history"] = [self.nh0, self.na0]
         c.update(extra)
         return c
 
@@ -253,46 +338,49 @@ def check_conditionals(ctx, net):
     m = ctx.get_model()
     rbm, case = net.rbm, net.case(part="conditionals")
     V, H, A = net.V, net.H, net.A
-    tV, tH = torch.tensor(V, dtype=torch.double), torch.tensor(H, dtype=torch.double)
+    dt, rt = net.wdtype, net.rt                       # the conditionals take tensors of the network's own dtype
+    tol = {} if not net.f32 else {"rtol": rt, "atol": rt}
+    tV, tH = torch.tensor(V, dtype=dt), torch.tensor(H, dtype=dt)
     if net.purif:
-        tA = torch.tensor(A, dtype=torch.double)
+        tA = torch.tensor(A, dtype=dt)
         HH = np.repeat(H, len(A), axis=0); AA = np.tile(A, (len(H), 1))       # h-major pairs
         ok, out = ctx.call("conditional-probability methods (batched)", case, lambda: (
             tnp(rbm.prob_h_given_v(tV.clone())), tnp(rbm.prob_a_given_v(tV.clone())),
-            tnp(rbm.prob_v_given_ha(torch.tensor(HH, dtype=torch.double), torch.tensor(AA, dtype=torch.double)))))
+            tnp(rbm.prob_v_given_ha(torch.tensor(HH, dtype=dt), torch.tensor(AA, dtype=dt)))))
         if not ok:
             return False
         ph, pa, pv = out
         mph, mpa, mpv = m.call("c05_p_conds", *net.params, V, H, A)
-        ctx.agree("prob_h_given_v", ph, mph, case)
-        ctx.agree("prob_a_given_v", pa, mpa, case)
-        ctx.agree("prob_v_given_ha", pv, mpv, case)
-        good = ctx.require("prob_h_given_v is the exact conditional P(h|v)", close_rel(ph, net.PH), case,
+        ctx.agree("prob_h_given_v", ph, mph, case, **tol)
+        ctx.agree("prob_a_given_v", pa, mpa, case, **tol)
+        ctx.agree("prob_v_given_ha", pv, mpv, case, **tol)
+        good = ctx.require("prob_h_given_v is the exact conditional P(h|v)", close_rel(ph, net.PH, rtol=rt), case,
                            {"impl": ph.tolist(), "exact": net.PH.tolist()})
-        good &= ctx.require("prob_a_given_v is the exact conditional P(a|v)", close_rel(pa, net.PA), case,
+        good &= ctx.require("prob_a_given_v is the exact conditional P(a|v)", close_rel(pa, net.PA, rtol=rt), case,
                             {"impl": pa.tolist(), "exact": net.PA.tolist()})
         good &= ctx.require("prob_v_given_ha is the exact conditional P(v|h,a)",
-                            close_rel(pv, net.PV.reshape(-1, net.nv)), case,
+                            close_rel(pv, net.PV.reshape(-1, net.nv), rtol=rt), case,
                             {"impl": pv.tolist(), "exact": net.PV.reshape(-1, net.nv).tolist()})
         # 1-D call forms
         for i in sorted({0, len(V) - 1, int(ctx.rng.integers(len(V)))}):
             ok, o = ctx.call("conditional-probability methods (1-D)", case,
                              lambda: (tnp(rbm.prob_h_given_v(tV[i].clone())), tnp(rbm.prob_a_given_v(tV[i].clone()))))
             if ok:
-                ctx.agree("prob_h_given_v 1-D", o[0], mph[i], case)
-                ctx.agree("prob_a_given_v 1-D", o[1], mpa[i], case)
+                ctx.agree("prob_h_given_v 1-D", o[0], mph[i], case, **tol)
+                ctx.agree("prob_a_given_v 1-D", o[1], mpa[i], case, **tol)
                 good &= ctx.require("prob_h_given_v 1-D form has shape (nh,) and equals the batched row",
-                                    o[0].shape == (net.nh,) and close_rel(o[0], ph[i]), case)
+                                    o[0].shape == (net.nh,) and close_rel(o[0], ph[i], rtol=rt), case)
                 good &= ctx.require("prob_a_given_v 1-D form has shape (na,) and equals the batched row",
-                                    o[1].shape == (net.na,) and close_rel(o[1], pa[i]), case)
+                                    o[1].shape == (net.na,) and close_rel(o[1], pa[i], rtol=rt), case)
         for j in sorted({0, len(HH) - 1, int(ctx.rng.integers(len(HH)))}):
             ok, o = ctx.call("prob_v_given_ha (1-D)", case, lambda: tnp(rbm.prob_v_given_ha(
-                torch.tensor(HH[j], dtype=torch.double), torch.tensor(AA[j], dtype=torch.double))))
+                torch.tensor(HH[j], dtype=dt), torch.tensor(AA[j], dtype=dt))))
             if ok:
-                ctx.agree("prob_v_given_ha 1-D", o, mpv[j], case)
+                ctx.agree("prob_v_given_ha 1-D", o, mpv[j], case, **tol)
                 good &= ctx.require("prob_v_given_ha 1-D form has shape (nv,) and equals the batched row",
-                                    o.shape == (net.nv,) and close_rel(o, pv[j]), case)
+                                    o.shape == (net.nv,) and close_rel(o, pv[j], rtol=rt), case)
         net.impl_conds = (ph, pa, pv)
+        good &= check_layer_samplers(ctx, net)
     else:
         ok, out = ctx.call("conditional-probability methods (batched)", case, lambda: (
             tnp(rbm.prob_h_given_v(tV.clone())), tnp(rbm.prob_v_given_h(tH.clone()))))
@@ -300,25 +388,106 @@ def check_conditionals(ctx, net):
             return False
         ph, pv = out
         mph, mpv = m.call("c05_b_conds", *net.params, V, H)
-        ctx.agree("prob_h_given_v", ph, mph, case)
-        ctx.agree("prob_v_given_h", pv, mpv, case)
-        good = ctx.require("prob_h_given_v is the exact conditional P(h|v)", close_rel(ph, net.PH), case,
+        ctx.agree("prob_h_given_v", ph, mph, case, **tol)
+        ctx.agree("prob_v_given_h", pv, mpv, case, **tol)
+        good = ctx.require("prob_h_given_v is the exact conditional P(h|v)", close_rel(ph, net.PH, rtol=rt), case,
                            {"impl": ph.tolist(), "exact": net.PH.tolist()})
-        good &= ctx.require("prob_v_given_h is the exact conditional P(v|h)", close_rel(pv, net.PV[:, 0, :]), case,
+        good &= ctx.require("prob_v_given_h is the exact conditional P(v|h)", close_rel(pv, net.PV[:, 0, :], rtol=rt), case,
                             {"impl": pv.tolist(), "exact": net.PV[:, 0, :].tolist()})
         for i in sorted({0, len(V) - 1, int(ctx.rng.integers(len(V)))}):
             ok, o = ctx.call("prob_h_given_v (1-D)", case, lambda: tnp(rbm.prob_h_given_v(tV[i].clone())))
             if ok:
-                ctx.agree("prob_h_given_v 1-D", o, mph[i], case)
+                ctx.agree("prob_h_given_v 1-D", o, mph[i], case, **tol)
                 good &= ctx.require("prob_h_given_v 1-D form has shape (nh,) and equals the batched row",
-                                    o.shape == (net.nh,) and close_rel(o, ph[i]), case)
+                                    o.shape == (net.nh,) and close_rel(o, ph[i], rtol=rt), case)
         for j in sorted({0, len(H) - 1, int(ctx.rng.integers(len(H)))}):
             ok, o = ctx.call("prob_v_given_h (1-D)", case, lambda: tnp(rbm.prob_v_given_h(tH[j].clone())))
             if ok:
-                ctx.agree("prob_v_given_h 1-D", o, mpv[j], case)
+                ctx.agree("prob_v_given_h 1-D", o, mpv[j], case, **tol)
                 good &= ctx.require("prob_v_given_h 1-D form has shape (nv,) and equals the batched row",
-                                    o.shape == (net.nv,) and close_rel(o, pv[j]), case)
+                                    o.shape == (net.nv,) and close_rel(o, pv[j], rtol=rt), case)
         net.impl_conds = (ph, None, pv)
+        good &= check_layer_samplers(ctx, net)
+    return good
+
+
+# ----------------------------------------------------------------------------- (h) single-layer samplers called directly
+def check_layer_samplers(ctx, net, reps=3000):
+    """The public single-layer samplers sample_h_given_v / sample_v_given_h (BinaryRBM) and sample_h_given_v /
+    sample_a_given_v / sample_v_given_ha (PurificationRBM) called DIRECTLY on the whole configuration space -- without
+    `out=`, with a fresh `out=` tensor, and in the 1-D form: the returned value is a 0/1 sample of shape (..., units); an
+    `out=` tensor holds that sample; when the call made exactly one recorded Bernoulli draw from the exact conditional,
+    the returned sample IS that draw (content tie); otherwise the empirical mean of `reps` repeated draws per
+    configuration must be the exact conditional (STATISTICAL TEST, Hoeffding)."""
+    import torch
+    rbm, dt, rt = net.rbm, net.wdtype, net.rt
+    V, H, A = net.V, net.H, net.A
+    if net.purif:
+        HH = np.repeat(H, len(A), axis=0); AA = np.tile(A, (len(H), 1))
+        jobs = [("sample_h_given_v", (V,), net.PH, net.nh), ("sample_a_given_v", (V,), net.PA, net.na),
+                ("sample_v_given_ha", (HH, AA), net.PV.reshape(-1, net.nv), net.nv)]
+    else:
+        jobs = [("sample_h_given_v", (V,), net.PH, net.nh), ("sample_v_given_h", (H,), net.PV[:, 0, :], net.nv)]
+    good = True
+    for name, args, E, units in jobs:
+        fn = getattr(rbm, name, None)
+        if fn is None:
+            ctx.count("layer_sampler_missing:" + name)      # the method names are not part of the statement
+            continue
+        R = len(E)
+        i1 = int(ctx.rng.integers(R))
+        untied = False
+        for form in ("no out", "out=", "1-D"):
+            seed = ctx.torch_seed()
+            case = net.case(part="layer samplers", method=name, call_form=form, torch_seed=seed)
+            what = "%s(<%s>%s)" % (name, "one configuration, 1-D" if form == "1-D" else "all configurations",
+                                    ", out=<fresh tensor>" if form == "out=" else "")
+            if form == "1-D":
+                targs = [torch.tensor(a[i1], dtype=dt) for a in args]
+                Ef, shape = E[i1:i1 + 1], (units,)
+                case["configuration"] = [a[i1].tolist() for a in args]
+            else:
+                targs = [torch.tensor(a, dtype=dt) for a in args]
+                Ef, shape = E, (R, units)
+            buf = torch.full(shape, 7.0, dtype=dt) if form == "out=" else None
+            with BernoulliSpy() as spy:
+                ok, res = ctx.call(what, case, (lambda: fn(*targs)) if buf is None else (lambda: fn(*targs, out=buf)))
+            ctx.count("layer_sampler:%s:%s" % (name, form))
+            if not ok:
+                good = False
+                continue
+            r = tnp(res) if isinstance(res, torch.Tensor) else None
+            if not ctx.require(what + ": returns a 0/1 sample of shape (..., units)",
+                               r is not None and tuple(r.shape) == shape and is01(r), case,
+                               {"returned": r.tolist() if r is not None else type(res).__name__, "expected shape": list(shape)}):
+                good = False
+                continue
+            if buf is not None:
+                good &= ctx.require(what + ": the out= tensor holds the returned sample", bool(np.array_equal(tnp(buf), r)), case,
+                                    {"out": tnp(buf).tolist(), "returned": r.tolist()})
+            calls = spy.calls
+            if len(calls) == 1 and calls[0]["p"].size == Ef.size and calls[0]["out"].size == Ef.size and \
+                    close_rel(calls[0]["p"].reshape(Ef.shape), Ef, rtol=rt, atol=1e-12 if rt <= RT else rt * 1e-2):
+                good &= ctx.require(what + ": the returned sample is the Bernoulli draw made from the exact conditional",
+                                    bool(np.array_equal(calls[0]["out"].reshape(Ef.shape), r.reshape(Ef.shape))), case,
+                                    {"returned": r.tolist(), "recorded draw": calls[0]["out"].tolist()})
+                ctx.count("layer_sampler_tied_to_draw")
+            else:
+                untied = True
+        if untied:
+            # draws made by other means / in another decomposition: decided by the law of repeated draws
+            ctx.count("layer_sampler_not_tied:" + name)
+            seed = ctx.torch_seed()
+            case = net.case(part="layer samplers", method=name, call_form="statistical", torch_seed=seed, repetitions=reps)
+            targs = [torch.tensor(np.tile(a, (reps, 1)), dtype=dt) for a in args]
+            ok, res = ctx.call(name + "(<all configurations repeated>)", case, lambda: fn(*targs))
+            if ok and isinstance(res, torch.Tensor) and tuple(res.shape) == (R * reps, units) and is01(tnp(res)):
+                freq = tnp(res).reshape(reps, R, units).mean(axis=0)
+                dev, eps = float(np.max(np.abs(freq - E))), hoeffding_eps(reps)
+                ctx.count("statistical_cells", R * units)
+                good &= ctx.require("STATISTICAL TEST (Hoeffding, delta=1e-9 per cell): frequency of 1s drawn by %s == exact "
+                                    "conditional" % name, dev <= eps, case,
+                                    {"empirical": freq.tolist(), "exact": np.asarray(E).tolist(), "max deviation": dev, "bound": eps})
     return good
 
 
@@ -400,7 +569,10 @@ def check_kernel(ctx, net):
 
 # ----------------------------------------------------------------------------- (c) sampler trace
 class BernoulliSpy:
-    """Records the probability tensor given to, and the draw returned by, every torch.bernoulli call."""
+    """Records the probability tensor used by, and the draw produced by, every Bernoulli draw made through torch's Python
+    entry points: the function `torch.bernoulli(input[, p][, out=])`, the method `Tensor.bernoulli([p])` and the in-place
+    method `Tensor.bernoulli_(p=0.5)` (whose probabilities are its ARGUMENT -- a number or a tensor --, not the tensor it
+    overwrites)."""
 
     def __init__(self):
         self.calls = []
@@ -411,20 +583,56 @@ class BernoulliSpy:
         self.orig = torch.bernoulli
         spy = self
 
-        def wrapped(inp, *a, **k):
+        def prob_of(inp, a, k):
+            """the probabilities of a torch.bernoulli(inp, ...) / inp.bernoulli(...) call"""
             p = inp.detach().clone()
             pa = a[0] if a and isinstance(a[0], (int, float)) else k.get("p")
-            if isinstance(pa, (int, float)):                    # torch.bernoulli(input, p): input only gives the shape
-                p = spy.torch.full_like(p, float(pa), dtype=spy.torch.double)
+            if isinstance(pa, (int, float)) and not isinstance(pa, bool):   # (input, p): input only gives the shape
+                p = torch.full(tuple(p.shape), float(pa), dtype=torch.double)
+            return p
+
+        def record(p, out, via, out_kw=False):
+            spy.calls.append({"p": p.detach().to(torch.double).numpy().astype(float),
+                              "out": out.detach().clone().to(torch.double).numpy().astype(float), "out_kw": out_kw, "via": via})
+
+        def wrapped(inp, *a, **k):
+            p = prob_of(inp, a, k)
             out = spy.orig(inp, *a, **k)
-            spy.calls.append({"p": p.numpy().astype(float), "out": out.detach().clone().numpy().astype(float),
-                              "out_kw": k.get("out") is not None})
+            record(p, out, "torch.bernoulli", k.get("out") is not None)
+            return out
+
+        base_ = torch.Tensor.bernoulli_                          # inherited C method (not in torch.Tensor.__dict__)
+        base = torch.Tensor.bernoulli
+        self.had = {n: torch.Tensor.__dict__.get(n) for n in ("bernoulli_", "bernoulli")}
+
+        def wrapped_inplace(self_t, *a, **k):
+            pa = a[0] if a else k.get("p", 0.5)
+            if isinstance(pa, torch.Tensor):
+                p = pa.detach().to(torch.double).expand(tuple(self_t.shape)).clone()
+            else:
+                p = torch.full(tuple(self_t.shape), float(pa), dtype=torch.double)
+            out = base_(self_t, *a, **k)
+            record(p, self_t, "Tensor.bernoulli_")
+            return out
+
+        def wrapped_method(self_t, *a, **k):
+            p = prob_of(self_t, a, k)
+            out = base(self_t, *a, **k)
+            record(p, out, "Tensor.bernoulli")
             return out
         torch.bernoulli = wrapped
+        torch.Tensor.bernoulli_ = wrapped_inplace
+        torch.Tensor.bernoulli = wrapped_method
         return self
 
     def __exit__(self, *exc):
-        self.torch.bernoulli = self.orig
+        torch = self.torch
+        torch.bernoulli = self.orig
+        for n, old in self.had.items():
+            if old is None:
+                delattr(torch.Tensor, n)                         # back to the inherited C method
+            else:
+                setattr(torch.Tensor, n, old)
         return False
 
 
@@ -451,6 +659,7 @@ def interpret_run(net, calls, v_start, k_min):
     M = v_start.shape[0]
     cur = v_start
     steps = []
+    rt = getattr(net, "rt", RT)                     # single-precision networks: conditionals are exact up to float32 rounding
     layers = [("h", net.nh)] + ([("a", net.na)] if net.purif else [])
 
     def new_step():
@@ -478,7 +687,7 @@ def interpret_run(net, calls, v_start, k_min):
                     if any(not np.isnan(st["val"][n][0, j]) for n, j in cols):
                         continue
                     E = np.stack([st["exp"][n][:, j] for n, j in cols], axis=1)
-                    if close_rel(P, E, rtol=RT):
+                    if close_rel(P, E, rtol=rt, atol=1e-12 if rt <= RT else rt * 1e-2):
                         for q, (n, j) in enumerate(cols):
                             st["val"][n][:, j] = D[:, q]
                             st["req"][n][:, j] = P[:, q]
@@ -498,7 +707,7 @@ def interpret_run(net, calls, v_start, k_min):
         for start in range(net.nv - m + 1):
             if not np.isnan(st["v"][0, start:start + m]).all():
                 continue
-            if close_rel(P, st["expv"][:, start:start + m], rtol=RT):
+            if close_rel(P, st["expv"][:, start:start + m], rtol=rt, atol=1e-12 if rt <= RT else rt * 1e-2):
                 st["v"][:, start:start + m] = D
                 st["pv"][:, start:start + m] = P
                 placed = True
@@ -573,7 +782,8 @@ def model_replay(ctx, net, case, steps, v_start, res2, k, overwrite, same_dtype,
         fin, reqs = m.call(fn, *net.params, k, v_start[i].tolist(), draws)
         ctx.agree_exact("sampler: number of probability vectors requested in k steps", len(probs), len(reqs), case)
         for j, (pq, rq) in enumerate(zip(probs, reqs)):
-            ctx.agree("sampler: conditional used for draw %d (canonical order)" % j, pq, rq, case, rtol=RT, atol=1e-12)
+            ctx.agree("sampler: conditional used for draw %d (canonical order)" % j, pq, rq, case, rtol=net.rt,
+                      atol=1e-12 if net.rt <= RT else net.rt * 1e-2)
         ctx.agree_exact("sampler: final state", [float(x) for x in res2[i]], [float(x) for x in fin], case)
         hp, ret = m.call("c05_call", net.per - 1, overwrite, same_dtype, k, [v_start[i].tolist()], 0, draws)
         ctx.agree_exact("storage: caller's tensor after the call", [float(x) for x in v_after2[i]], [float(x) for x in hp[0]], case)
@@ -588,6 +798,7 @@ def one_run(ctx, net, k, overwrite, v0, via, seed, form="2d", outer=None):
     import torch
     dt = str(v0.dtype).replace("torch.", "")
     non_double = (v0.dtype != torch.double)
+    other_dtype = (v0.dtype != net.wdtype)          # the chain runs in the dtype of the weights: .to(weights) copies
     case = net.case(part="sampler", k=k, overwrite=overwrite, via=via, torch_seed=seed, start_form=form,
                     start_dtype=dt, non_double_start=non_double, initial_state=tnp(v0).tolist(),
                     start_strides=list(v0.stride()), start_contiguous=bool(v0.is_contiguous()))
@@ -650,8 +861,8 @@ def one_run(ctx, net, k, overwrite, v0, via, seed, form="2d", outer=None):
         good &= ctx.require(what + ": cells of the caller's larger tensor outside the start-state view keep their values",
                             bool(np.array_equal(tnp(outer[0])[mask], tnp(pool_before)[mask])), case,
                             {"pool shape": list(outer[0].shape)})
-    if steps is not None and (good or non_double):
-        model_replay(ctx, net, case, steps, start2, res2, k, overwrite, not non_double, after2,
+    if steps is not None and (good or other_dtype):
+        model_replay(ctx, net, case, steps, start2, res2, k, overwrite, not other_dtype, after2,
                      max_rows=3 if outer is None else 2)
     return res
 
@@ -741,7 +952,8 @@ def probe_pending(ctx, net, form, rows, dtype, overwrite):
             detail = {"problem": "cells of the caller's tensor outside the start-state view were modified",
                       "pool before": pool_before.tolist(), "pool after": tnp(pool).tolist(), "result": r.tolist(),
                       "stride of the caller's tensor object after the call": list(v0.stride())}
-        elif list(v0.stride()) != case["start_strides"]:
+        elif [st for st, sz in zip(v0.stride(), v0.shape) if sz > 1] != \
+                [st for st, sz in zip(case["start_strides"], v0.shape) if sz > 1]:      # (the stride of a size-1 axis means nothing)
             detail = {"problem": "the caller's tensor object was re-strided by the call", "strides before": case["start_strides"],
                       "strides after": list(v0.stride())}
         elif overwrite and not np.array_equal(cells, r):
@@ -1270,7 +1482,7 @@ def shapes(ctx):
     return b, p
 
 
-def moderate_net(ctx, kind, nv, nh, na):
+def moderate_net(ctx, kind, nv, nh, na, f32=False):
     """couplings and biases uniform in +-[0.15, 1.2]: every kernel^k row is far from a point mass, so that the layout law
     tests reject an identity (or otherwise wrong) kernel with certainty, whatever the seed"""
     def u(*shape):
@@ -1281,7 +1493,215 @@ def moderate_net(ctx, kind, nv, nh, na):
     else:
         params = [u(nh, nv), u(nv), u(nh)]
         php = gen.brbm_params(ctx, nv, nh) if kind == "complex" else None
-    return Net(kind, nv, nh, na, params, php)
+    return Net(kind, nv, nh, na, params, php, f32=f32)
+
+
+# ----------------------------------------------------------------------------- (i) long chains
+LONG_KS = (17, 31, 32, 33, 64, 100)
+LONG_LAW_KS = (17, 32, 33, 64, 100)
+LONG_CHAINS = 25000
+
+
+def tables_only(kind, nv, nh, na, params):
+    """reference tables (exact conditionals, exact kernel) of a parameter set, without building a state"""
+    n = Net.__new__(Net)
+    n.kind, n.nv, n.nh, n.na, n.purif = kind, nv, nh, na, (kind == "density")
+    n.params = [np.asarray(p, dtype=float) for p in params]
+    n._space()
+    n._tables()
+    return n
+
+
+def long_chain_power(K, ks=LONG_LAW_KS):
+    """(power, start state): the smallest distance (max over cells), over the tested k, between row s0 of kernel^k and the
+    laws a wrong long-chain sampler would produce -- uniform draws, the start state handed back, a chain cut at k // 2 --
+    for the best start state s0"""
+    S = len(K)
+    uni = np.full(S, 1.0 / S)
+    best = (-1.0, 0)
+    P = {m: np.linalg.matrix_power(K, m) for k in ks for m in (k, k // 2)}
+    for s0 in range(S):
+        e = np.zeros(S); e[s0] = 1.0
+        pw = min(min(np.max(np.abs(P[k][s0] - alt)) for alt in (uni, e, P[k // 2][s0])) for k in ks)
+        if pw > best[0]:
+            best = (float(pw), s0)
+    return best
+
+
+def slow_params(ctx, kind, nv, nh, na, target=0.975):
+    """A SLOWLY mixing network (second eigenvalue of the exact kernel = `target`, so that kernel^17 ... kernel^100 are all
+    different from each other, from the stationary law and from the uniform law): couplings of one sign pattern
+    (a gauged ferromagnet), biases near the symmetric point (all non-zero), overall scale found by bisection."""
+    rng = ctx.rng
+    best = None
+    for attempt in range(20):
+        sv, sh, sa = (rng.choice([-1.0, 1.0], size=n) for n in (nv, nh, max(na, 1)))
+        W0 = rng.uniform(0.7, 1.3, size=(nh, nv)) * sh[:, None] * sv[None, :]
+        U0 = rng.uniform(0.7, 1.3, size=(max(na, 1), nv)) * sa[:, None] * sv[None, :]
+        db, dc, dd = (rng.uniform(0.05, 0.2, size=n) * rng.choice([-1.0, 1.0], size=n) for n in (nv, nh, max(na, 1)))
+
+        def mk(t):
+            W = t * W0
+            if kind == "density":
+                U = t * U0[:na]
+                return [W, U, -(W.sum(0) + U.sum(0)) / 2 + db, -W.sum(1) / 2 + dc, -U.sum(1) / 2 + dd[:na]]
+            return [W, -W.sum(0) / 2 + db, -W.sum(1) / 2 + dc]
+        lo, hi = 0.3, 14.0
+        for _ in range(26):
+            mid = 0.5 * (lo + hi)
+            ev = np.sort(np.abs(np.linalg.eigvals(tables_only(kind, nv, nh, na, mk(mid)).K_exact)))[::-1]
+            lo, hi = (mid, hi) if ev[1] < target else (lo, mid)
+        params = mk(hi)
+        power, s0 = long_chain_power(tables_only(kind, nv, nh, na, params).K_exact)
+        if best is None or power > best[1]:
+            best = (params, power, s0)
+        if power >= 3.0 * hoeffding_eps(LONG_CHAINS):
+            break
+    return best
+
+
+def long_chain_checks(ctx, net, law_ks=LONG_LAW_KS):
+    """Chains of 17 ... 100 steps (the quantifier says k = 0,1,2,3..): content tie of one call per k (every recorded draw is
+    the exact conditional of its step, the result is the visible draw of step k, overwrite / storage as usual), through
+    sample, sample(k, n, initial_state=) and gibbs_steps, dense and strided float64 start states and another dtype; then
+    STATISTICAL TESTS that do not depend on how the draws are made: 25000 chains from one start state follow row s0 of
+    matrix_power(kernel, k) for k in `law_ks` (the caller's tensor too when overwriting); sample(64, n) without a start
+    state follows kernel^64 given its own start draw."""
+    import torch
+    rng = ctx.rng
+    vias = ("sample", "gibbs_steps", "sample(num_samples ignored)")
+    for i, k in enumerate(LONG_KS):
+        form, dtype = {2: ("col-block", "float64"), 4: ("contiguous", "float32"), 5: ("transposed", "float64")}.get(i, ("contiguous", "float64"))
+        rows = net.V[rng.integers(len(net.V), size=3)]
+        v0, pool, mask = make_start(form, rows, dtype)
+        one_run(ctx, net, k, bool(i % 2), v0, vias[i % 3], ctx.torch_seed(), form=form, outer=(pool, mask))
+        ctx.count("long_chain_run:k=%d" % k)
+    # one much longer chain (length log-uniform in 128..1500), tied draw by draw like the others
+    k_big = int(np.exp(rng.uniform(np.log(128.0), np.log(1500.0))))
+    v0, pool, mask = make_start("contiguous", net.V[rng.integers(len(net.V), size=2)], "float64")
+    one_run(ctx, net, k_big, bool(rng.integers(2)), v0, vias[int(rng.integers(3))], ctx.torch_seed(), form="contiguous", outer=(pool, mask))
+    ctx.count("long_chain_run:k>=128")
+    if getattr(net, "unobserved", False) and k_big not in law_ks:
+        law_ks = tuple(law_ks) + (k_big,)           # draws not readable: the very long chain is decided by its law as well
+    power, s0 = long_chain_power(net.K_exact)
+    n = LONG_CHAINS
+    eps = hoeffding_eps(n)
+    # sample(k, num_samples) WITHOUT initial_state, long chain: given the start states it drew, the result follows kernel^k
+    for k in (64,):
+        seed = ctx.torch_seed()
+        case = net.case(part="long chains (random start)", k=k, num_samples=n, torch_seed=seed)
+        with BernoulliSpy() as spy:
+            ok, res = ctx.call("sample(k=%d, num_samples=%d)" % (k, n), case, lambda: net.state.sample(k, n))
+        if ok:
+            r = tnp(res) if isinstance(res, torch.Tensor) else np.zeros(0)
+            c0 = spy.calls[0]["out"] if spy.calls else None
+            if ctx.require("sample(k, num_samples): result has shape (num_samples, nv) with 0/1 entries",
+                           r.shape == (n, net.nv) and is01(r), case, list(r.shape)):
+                if c0 is not None and np.shape(c0) == (n, net.nv) and is01(c0):
+                    law_by_start(ctx, net, "STATISTICAL TEST (Hoeffding, delta=1e-9 per cell): law of a long chain, sample(k >= 17, "
+                                 "num_samples) given its own start draw == matrix_power(kernel, k)", case, c0, r, k)
+                else:
+                    ctx.count("random_start_not_observed")
+    ctx.count("long_chain_law:%s" % ("powerful" if power >= 3.0 * eps else "low_power"))
+    ctx.extra.setdefault("long_chain_tests", []).append({"state": net.kind, "start": net.V[s0].tolist(), "chains": n,
+                                                         "hoeffding_bound": eps, "distance_to_wrong_laws": power})
+    for j, k in enumerate(law_ks):
+        overwrite = bool(j % 2)
+        seed = ctx.torch_seed()
+        case = net.case(part="long chains", k=k, overwrite=overwrite, start=net.V[s0].tolist(), chains=n, torch_seed=seed)
+        what = "sample(k=%d, initial_state=<%d chains>, overwrite=%s)" % (k, n, overwrite)
+        v0 = torch.tensor(np.repeat(net.V[s0:s0 + 1], n, axis=0), dtype=torch.double)
+        ok, res = ctx.call(what, case, lambda: net.state.sample(k, initial_state=v0, overwrite=overwrite))
+        if not ok:
+            continue
+        r = tnp(res) if isinstance(res, torch.Tensor) else None
+        if not ctx.require(what + ": result is a 0/1 array with the shape of the start state",
+                           r is not None and r.shape == (n, net.nv) and is01(r), case, {"shape": list(np.shape(r))}):
+            continue
+        law = np.linalg.matrix_power(net.K_exact, k)[s0]
+        for name, arr in (("returned samples", r),) + ((("caller's tensor", tnp(v0)),) if overwrite else ()):
+            if arr.shape != r.shape or not is01(arr):
+                continue                                # reported by the overwrite requirement below
+            freq = np.bincount(idx_of(arr), minlength=len(net.V)) / float(n)
+            dev = float(np.max(np.abs(freq - law)))
+            ctx.count("statistical_cells", len(net.V))
+            ctx.require("STATISTICAL TEST (Hoeffding, delta=1e-9 per cell): law of a long chain, sample(k >= 17, initial_state) "
+                        "== matrix_power(kernel, k) (%s)" % name, dev <= eps, case,
+                        {"empirical": freq.tolist(), "kernel^k row": law.tolist(), "uniform": 1.0 / len(net.V),
+                         "max deviation": dev, "bound": eps})
+        if overwrite:
+            ctx.require("overwrite=True updates the caller's start state in place", bool(np.array_equal(tnp(v0), r)), case, {"call": what})
+        else:
+            ctx.require(what + ": overwrite=False leaves the caller's start state untouched",
+                        bool(np.array_equal(tnp(v0), np.repeat(net.V[s0:s0 + 1], n, axis=0))), case)
+    if getattr(net, "unobserved", False):
+        ctx.extra["note_bernoulli"] = ("torch.bernoulli calls could not be read as exact block-Gibbs steps for some nets; "
+                                       "those nets were decided by the statistical test of the k-step law")
+    return power
+
+
+def long_chains_first(ctx):
+    for kind, nv, nh, na in (("positive", 2, 2, 0), ("density", 2, 1, 1), ("complex", 3, 2, 0)):
+        ctx.torch_seed()
+        params, power, s0 = slow_params(ctx, kind, nv, nh, na)
+        php = gen.prbm_params(ctx, nv, nh, na, phase=True) if kind == "density" else \
+            (gen.brbm_params(ctx, nv, nh) if kind == "complex" else None)
+        net = Net(kind, nv, nh, na, params, php)
+        ctx.count("long_chains_first:" + kind)
+        # (the complex state samples through the same BinaryRBM code as the positive one: fewer law tests there)
+        power = long_chain_checks(ctx, net, law_ks={"positive": LONG_LAW_KS, "density": (33, 100), "complex": (32, 64)}[kind])
+        ctx.case({"state": kind, "nv": nv, "nh": nh, "na": na, "p00": float(net.params[0][0, 0]), "part": "long chains"},
+                 nontrivial=bool(power >= 3.0 * hoeffding_eps(LONG_CHAINS)))
+
+
+# ----------------------------------------------------------------------------- (j) single-precision networks
+def float32_checks(ctx, net):
+    """A network converted with nn.Module.float() and handed over with `module=`: conditionals (called with float32
+    tensors) against the tables of the float32-rounded parameters, reported distribution, content tie of sample /
+    gibbs_steps runs from float64 / float32 / integer / strided start states (overwrite on and off, one long chain), the
+    single-layer samplers, sample(k, n) and a per-start-state law test."""
+    import torch
+    check_conditionals(ctx, net)
+    case = net.case(part="float32 network")
+    ok, prob = ctx.call("probability(space)", case, lambda: tnp(net.state.probability(torch.tensor(net.V, dtype=torch.double))))
+    if ok:
+        ctx.require("probability(space) is the visible marginal of the joint Boltzmann weight",
+                    prob.shape == net.log_marg_v.shape and bool(np.all(prob > 0)) and
+                    close_rel(np.log(prob), net.log_marg_v, rtol=1e-4, atol=1e-4), case,
+                    {"probability": prob.tolist(), "log marginal": net.log_marg_v.tolist()})
+    net.K_impl = net.K_exact
+    runs = ((1, False, "sample", "float64", "contiguous"), (2, True, "sample", "float64", "contiguous"),
+            (3, False, "gibbs_steps", "float32", "contiguous"), (2, True, "gibbs_steps", "float32", "contiguous"),
+            (1, True, "sample(num_samples ignored)", "int64", "col-block"), (33, False, "sample", "float64", "row-stride"),
+            (0, True, "sample", "float32", "transposed"))
+    for k, overwrite, via, dtype, form in runs:
+        rows = net.V[ctx.rng.integers(len(net.V), size=4)]
+        v0, pool, mask = make_start(form, rows, dtype)
+        one_run(ctx, net, k, overwrite, v0, via, ctx.torch_seed(), form=form, outer=(pool, mask))
+    for k, n in ((2, 5), (1, None)):
+        case = net.case(part="float32 network", k=k, num_samples=n, via="sample(num_samples)", torch_seed=ctx.torch_seed())
+        what = "sample(k=%d, num_samples=%s)" % (k, n)
+        ok, res = ctx.call(what, case, (lambda: net.state.sample(k)) if n is None else (lambda: net.state.sample(k, n)))
+        if ok:
+            r = tnp(res) if isinstance(res, torch.Tensor) else np.zeros(0)
+            ctx.require(what + ": result has shape (num_samples, nv) with 0/1 entries", r.shape == (n or 1, net.nv) and is01(r),
+                        case, {"shape": list(r.shape)})
+    check_layout_law(ctx, net, full=False)
+    if getattr(net, "unobserved", False):
+        check_statistical(ctx, net)
+
+
+def float32_first(ctx):
+    for kind, nv, nh, na in (("positive", 3, 2, 0), ("density", 2, 2, 1), ("complex", 2, 3, 0)):
+        ctx.torch_seed()
+        case = {"state": kind, "nv": nv, "nh": nh, "na": na, "network_dtype": "float32 (module=<RBM>.float())"}
+        ok, net = ctx.call("state built with module=<RBM converted with .float()>", case,
+                           lambda: moderate_net(ctx, kind, nv, nh, na, f32=True))
+        if not ok:
+            continue
+        ctx.count("float32_first:" + kind)
+        float32_checks(ctx, net)
+        ctx.case(dict(case, p00=float(net.params[0][0, 0]), part="float32 network"), nontrivial=True)
 
 
 def layouts_first(ctx):
@@ -1292,6 +1712,7 @@ def layouts_first(ctx):
         ctx.torch_seed()
         net = moderate_net(ctx, kind, nv, nh, na)
         ctx.count("layouts_first:" + kind)
+        check_layer_samplers(ctx, net)
         layout_runs(ctx, net, full=True)
         check_layout_law(ctx, net, full=True)
         check_observable_chains(ctx, net, full=True)
@@ -1304,7 +1725,11 @@ def layouts_first(ctx):
 
 
 def run(ctx):
-    layouts_first(ctx)
+    walls = ctx.extra.setdefault("fixed_first_wall_s", {})
+    for fn in (layouts_first, long_chains_first, float32_first):
+        t0 = time.time()
+        fn(ctx)
+        walls[fn.__name__] = round(walls.get(fn.__name__, 0.0) + time.time() - t0, 2)
     for kind, nv, nh, na in FIXED_FIRST:
         ctx.torch_seed()
         check_net(ctx, draw_net(ctx, kind, nv, nh, na), extended=True, hows=list(Net.HOWS))
@@ -1353,15 +1778,27 @@ def replay(ctx, rec):
     part = str(case.get("part"))
     ext = part.startswith(("statistical test (random", "large batch", "layout law", "observable chains")) or \
         str(case.get("start_form")) not in ("None", "2d", "contiguous")
+    if case.get("network_dtype"):
+        # single-precision network (module=<RBM>.float()); a construction failure has no parameters recorded
+        if "params" in case:
+            net = Net(kind, case["nv"], case["nh"], case.get("na", 0), case["params"], f32=True)
+        else:
+            net = moderate_net(ctx, kind, case["nv"], case["nh"], case.get("na", 0), f32=True)
+        float32_checks(ctx, net)
+        return
     if hist:
         # same-object history: first pass on freshly drawn parameters (primes whatever the object caches), then the
         # recorded kinds of update, the last one to the recorded parameters
-        net = draw_net(ctx, kind, case["nv"], case["nh"], case.get("na", 0))
+        nh0, na0 = case.get("shape_before_history") or (case["nh"], case.get("na", 0))
+        net = draw_net(ctx, kind, case["nv"], nh0, na0)
         check_net(ctx, net, hows=[])
         for how in hist[:-1]:
             net.mutate(ctx, how)
+        if hist[-1] != Net.SETTER and (net.nh, net.na if net.purif else 0) != (case["nh"], case.get("na", 0)):
+            net.mutate(ctx, Net.SETTER, explicit=case["params"])         # (cannot happen with histories this check generates)
         net.mutate(ctx, hist[-1], explicit=case["params"])
-        check_net(ctx, net, statistical=part.startswith("statistical test"), extended=ext, hows=[])
     else:
         net = Net(kind, case["nv"], case["nh"], case.get("na", 0), case["params"])
-        check_net(ctx, net, statistical=part.startswith("statistical test"), extended=ext, hows=[])
+    if part.startswith("long chains") or int(case.get("k") or 0) > 3:
+        long_chain_checks(ctx, net)
+    check_net(ctx, net, statistical=part.startswith("statistical test"), extended=ext, hows=[])
